@@ -51,6 +51,11 @@ CopyBound == (status = "run" /\ opts.limit > 0) => copied.lo <= opts.limit
 OnlyCopyCounts == [][copied' # copied => ops'[Len(ops')].op = "copy"]_pvars
 FirstFailureWins == [][status # "run" => UNCHANGED <<doc, status, cls, copied>>]_pvars
 
+\* C12: the machine refines the copy accounting of CopyAcct.tla (whose bound Apalache proves for all limits and sizes)
+CA == INSTANCE CopyAcct WITH Limit <- opts.limit, total <- copied.lo, st <- status,
+                             why <- IF cls = "CopyLimit" THEN "CopyLimit" ELSE IF status # "run" THEN "Other" ELSE ""
+RefinesCopyAcct == CA!SpecObs
+
 \* C12: a limit of 0 never stops a patch
 LimitZeroNeverFails == opts.limit = 0 => cls # "CopyLimit"
 
